@@ -19,9 +19,10 @@ type Config struct {
 
 // Verdict of the per-execution oracle.
 type Verdict struct {
-	Outcome string // canonical outcome string (distinct outcomes are counted)
-	Fail    string // non-empty: the property is violated in this execution
-	Key     string // stable key of the violation (for known-findings matching)
+	Outcome       string // canonical outcome string (distinct outcomes are counted)
+	Fail          string // non-empty: the property is violated in this execution
+	Key           string // stable key of the violation (for known-findings matching)
+	NoReplayCheck bool   // the failure cannot be reproduced in the same process (race reports are de-duplicated by the detector)
 }
 
 type Violation struct {
@@ -170,7 +171,7 @@ func (e *explorer) record(x *ExecResult, prefix []int, used int) {
 			// deterministic? replay the same choices five times, with descriptions
 			ch := x.Choices()
 			var desc []string
-			for r := 0; r < 5; r++ {
+			for r := 0; r < 5 && !v.NoReplayCheck; r++ {
 				// four plain replays must reproduce the observations byte for byte; the
 				// fifth runs with call-site descriptions (which may appear in messages)
 				y := runOnce(ch, r == 4, e.cfg.Sleep, e.body)
